@@ -1,15 +1,156 @@
 (* C15 — Python export reconstructs an identical engine.
-   Only imports and final statements; all proofs live in Proofs/PyReprProofs.v.  The model (Model/PyRepr.v) is about
-   constructor call trees: Python's parser/eval, reprlib and black are trusted (DESIGN §4, A-py); `repr(float)`,
-   `Op.str`, `float(str)`, `Function.parse` and `Rule.load` are parameters of the model (record `penv`). *)
+   Only imports and final statements; the proofs live in Proofs/PyReprProofs.v and Proofs/PyReprFix.v.
+   The model (Model/PyRepr.v) is about constructor call trees: Python's parser/eval, reprlib and black are trusted
+   (DESIGN §4, A-py); `repr(float)`, `Op.str`, `float(str)`, `Function.parse` and `Rule.load` are parameters of the model
+   (record `penv`).  `engine_wf` = well-shaped engine: canonical floats whose repr round-trips (`fl_ok`), no NaN in the
+   trailing parameters of Triangle/Trapezoid (that is the shorthand constructors' trigger), registered operator /
+   defuzzifier / activation classes, formulas that parse, rules that load and whose text is made of words
+   (`rule_text_ok`, a hypothesis here: see rule_text_roundtrip_full in Proofs/PyReprFix.v). *)
 From Coq Require Import ZArith Bool List String PrimFloat.
-From VF Require Import Num NumF Core GenSignatures PyRepr PyReprProofs.
+From VF Require Import Num NumF GenTerm Core GenSignatures PyRepr PyReprProofs PyReprFix.
 Import ListNotations.
 Local Open Scope string_scope.
 
-(* ---- every class of the translated table, every alias: evaluating the printed tree in the namespace the import
-   statement creates re-runs the translated __init__ on exactly the fields the translated __repr__ keeps *)
-Theorem C15_construct_repr : forall (T : Type) (N : Num T) (E : penv T) (alias_setting : string) (v : pyval T) (e : pyexpr T),
-  repr E (alias_of alias_setting) v = Ok e -> construct E (alias_of alias_setting) e = normalize E v.
-Proof. intros; apply eval_repr; assumption. Qed.
+Section Statements.
+  Context {T : Type} {N : Num T}.
+  Variable E : penv T.
+
+  (* ---- every class of the translated table, every alias: evaluating the printed tree in the namespace the import
+     statement creates re-runs the translated __init__ on exactly the fields the translated __repr__ keeps *)
+  Theorem C15_construct_repr : forall (alias_setting : string) (v : pyval T) (e : pyexpr T),
+    repr E (alias_of alias_setting) v = Ok e -> construct E (alias_of alias_setting) e = normalize E v.
+  Proof. intros; apply eval_repr; assumption. Qed.
+
+  (* ---- what that is, for each component and for whole engines (typed closed forms) *)
+  Theorem C15_normalize_term : forall t, term_wf E t -> normalize E (term_val t) = Ok (term_val (norm_term E t)).
+  Proof. exact (@normalize_term T N E). Qed.
+  Theorem C15_normalize_defuzzifier : forall d, defuzzifier_wf d -> normalize E (defuzzifier_val d) = Ok (defuzzifier_val d).
+  Proof. exact (@normalize_defuzzifier T N E). Qed.
+  Theorem C15_normalize_activation : forall x, activation_wf E x -> normalize E (activation_val x) = Ok (activation_val x).
+  Proof. exact (@normalize_activation T N E). Qed.
+  Theorem C15_normalize_operator : forall cls, plain_class cls = true -> normalize E (VObj cls []) = Ok (VObj cls []).
+  Proof. exact (@normalize_plain T N E). Qed.
+  Theorem C15_normalize_rule_partial : forall r, rule_text_ok E r -> normalize E (rule_val r) = Ok (rule_val (norm_rule E r)).
+  Proof. exact (@normalize_rule T N E). Qed.
+  Theorem C15_normalize_input_variable : forall v, input_wf E v -> normalize E (input_val v) = Ok (input_val (norm_input E v)).
+  Proof. exact (@normalize_input T N E). Qed.
+  Theorem C15_normalize_output_variable : forall v, output_wf E v -> normalize E (output_val v) = Ok (output_val (norm_output E v)).
+  Proof. exact (@normalize_output T N E). Qed.
+  Theorem C15_normalize_rule_block : forall b, block_wf E b -> normalize E (block_val b) = Ok (block_val (norm_block E b)).
+  Proof. exact (@normalize_block T N E). Qed.
+  Theorem C15_normalize_engine : forall e, engine_wf E e -> normalize E (engine_val e) = Ok (engine_val (norm_engine E e)).
+  Proof. exact (@normalize_engine T N E). Qed.
+
+  (* ---- F5: Rule.enabled is not exported *)
+  Theorem C15_rule_enabled_lost : forall r, rule_text_ok E r -> ru_enabled r = false ->
+    exists r', normalize E (rule_val r) = Ok (rule_val r') /\ ru_enabled r' = true.
+  Proof. exact (@rule_enabled_lost T N E). Qed.
+
+  (* ---- the property: engine -> text -> engine, for every alias *)
+  Theorem C15_construct_repr_engine : forall alias_setting e x, engine_wf E e ->
+    repr E (alias_of alias_setting) (engine_val e) = Ok x ->
+    construct E (alias_of alias_setting) x = Ok (engine_val (norm_engine E e)).
+  Proof. intros a e x Hw Hr. rewrite (C15_construct_repr a _ _ Hr). apply normalize_engine, Hw. Qed.
+  (* representable (heights and weights 1 or far from 1, every rule enabled), loaded, freshly built engines are rebuilt
+     identically — hence with identical outputs on every input *)
+  Theorem C15_representable_identical : forall alias_setting e x, engine_wf E e -> engine_rep E e ->
+    repr E (alias_of alias_setting) (engine_val e) = Ok x ->
+    construct E (alias_of alias_setting) x = Ok (engine_val e).
+  Proof. intros a e x Hw Hp Hr. rewrite (C15_construct_repr a _ _ Hr). apply normalize_representable; assumption. Qed.
+  (* the rebuilt engine prints the same Python text ... *)
+  Theorem C15_repr_fixpoint : is_close E (lit 1 0) (lit 1 0) = true ->
+    forall alias_setting e, repr E (alias_of alias_setting) (engine_val (norm_engine E e)) = repr E (alias_of alias_setting) (engine_val e).
+  Proof. intros H1 a e. apply repr_fixpoint_engine, H1. Qed.
+  (* ... and the same FuzzyLite Language content *)
+  Theorem C15_fll_equal : is_close E (lit 1 0) (lit 1 0) = true -> forall e, fll_engine E (norm_engine E e) = fll_engine E e.
+  Proof. intros H1 e. apply fll_equal_engine, H1. Qed.
+  (* the class-/function-encapsulated export evaluates to the same constructor tree *)
+  Theorem C15_encapsulated_same_expr : forall alias_setting v m e,
+    encapsulate E (alias_of alias_setting) v = Ok m -> repr E (alias_of alias_setting) v = Ok e ->
+    (forall fs n, v = VObj "Engine" fs -> assoc "name" fs = Some (VStr n) ->
+       ident_ok (pascal_case E n) = true /\ (alias_of alias_setting = AStar -> expr_uses (pascal_case E n) e = false)) ->
+    run_module E m = construct E (alias_of alias_setting) e.
+  Proof. intros a v m e. apply encapsulated_same_expr. Qed.
+End Statements.
 Print Assumptions C15_construct_repr.
+Print Assumptions C15_normalize_engine.
+Print Assumptions C15_construct_repr_engine.
+Print Assumptions C15_representable_identical.
+Print Assumptions C15_repr_fixpoint.
+Print Assumptions C15_fll_equal.
+Print Assumptions C15_encapsulated_same_expr.
+Print Assumptions C15_rule_enabled_lost.
+
+(* ------------------------------------------------------------------ non-vacuity: binary64 floats, a concrete engine *)
+Definition NF : Num float := NumF true [].
+#[local] Existing Instance NF.
+Definition E0 : penv float := {|
+  reparse := fun x => x;                                       (* A-fmt: float(repr(x)) = x *)
+  fmt_w := fun _ => "0.500";
+  parse_w := fun s => if String.eqb s "0.500" then Some 0.5%float else None;
+  formula_err := fun _ => None;
+  rule_ok := fun _ _ _ _ => true;
+  pascal_case := fun s => s;
+  atol := 0x1.0624dd2f1a9fcp-10%float; rtol := 0%float |}.
+
+Definition ex_rule (enabled : bool) (w : float) : prule float :=
+  {| ru_enabled := enabled; ru_weight := w; ru_antecedent := ["temp"; "is"; "very"; "cold"]; ru_consequent := ["power"; "is"; "low"];
+     ru_loaded := true; ru_degree := 0%float; ru_triggered := false |}.
+Definition ex_engine (rule_enabled : bool) : pengine float :=
+  {| en_name := "heater"; en_description := "it's a ""test"" \ engine";
+     en_inputs := [ {| vi_name := "temp"; vi_description := ""; vi_enabled := true; vi_min := PrimFloat.neg_infinity; vi_max := 40.5%float;
+                       vi_lock_range := true;
+                       vi_terms := [PShape "cold" (Sh_Triangle 0%float 10%float 20.25%float 1%float);
+                                    PShape "hot" (Sh_Trapezoid 15%float 30%float PrimFloat.infinity PrimFloat.infinity 0.5%float);
+                                    PDiscrete "odd" [(0%float, 0.1%float); (1e-320%float, 1%float)] 2%float];
+                       vi_value := PrimFloat.nan |} ];
+     en_outputs := [ {| vo_name := "power"; vo_description := "out"; vo_enabled := false; vo_min := 0%float; vo_max := 1%float;
+                        vo_lock_range := false; vo_lock_previous := true; vo_default := PrimFloat.nan;
+                        vo_aggregation := Some "Maximum"; vo_defuzzifier := Some (PIntegral "Centroid" 100);
+                        vo_terms := [PShape "low" (Sh_Constant 0.25%float); PLinear "lin" [1%float; (-2.5)%float] true;
+                                     PFunction "fn" "temp * k" [("k", 3%float)] true true;
+                                     PShape "high" (Sh_Sigmoid 0.5%float (-30)%float 1%float)];
+                        vo_value := PrimFloat.nan; vo_previous := PrimFloat.nan; vo_fuzzy_name := "power"; vo_fuzzy_terms := [] |} ];
+     en_blocks := [ {| bl_name := "rules"; bl_description := ""; bl_enabled := false;
+                       bl_conjunction := Some "Minimum"; bl_disjunction := None; bl_implication := Some "AlgebraicProduct";
+                       bl_activation := Some (PActThreshold ">=" 0.25%float);
+                       bl_rules := [ex_rule true 1%float; ex_rule rule_enabled 0.5%float] |} ] |}.
+
+Ltac wf_tac :=
+  repeat first
+    [ exact I | split | apply Forall_nil | apply Forall_cons
+    | progress unfold input_wf, output_wf, block_wf, term_wf, shape_wf, rule_text_ok, opt_plain, defuzzifier_wf, activation_wf,
+                      formula_ok, rule_loads, row_ok, fl_ok
+    | progress cbn [vi_min vi_max vi_terms vo_min vo_max vo_default vo_aggregation vo_defuzzifier vo_terms vi_name vo_name
+                    bl_conjunction bl_disjunction bl_implication bl_activation bl_rules en_inputs en_outputs en_blocks
+                    shape_args fst snd ex_rule ru_antecedent ru_consequent ru_weight]
+    | (cbn [In]; tauto) | discriminate | (vm_compute; reflexivity) ].
+(* the hypotheses of the theorems are inhabited by a non-trivial engine (every kind of term, infinite shoulders, a
+   subnormal, quotes and a backslash in a description, disabled variable and block, weights 1 and 0.5) *)
+Example C15_example_wf : engine_wf (N:=NF) E0 (ex_engine true) /\ engine_rep E0 (ex_engine true)
+                          /\ is_close (N:=NF) E0 (lit 1 0) (lit 1 0) = true.
+Proof.
+  split; [|split; [|vm_compute; reflexivity]].
+  - unfold engine_wf, ex_engine. wf_tac.
+  - unfold engine_rep, ex_engine. repeat (split || constructor); vm_compute; reflexivity.
+Qed.
+(* ... which the four alias settings print and rebuild identically *)
+Example C15_example_roundtrip : forall s, In s ["fl"; ""; "*"; "fzl"] ->
+  exists e, repr (N:=NF) E0 (alias_of s) (engine_val (ex_engine true)) = Ok e
+            /\ construct E0 (alias_of s) e = Ok (engine_val (ex_engine true)).
+Proof.
+  intros s H. cbn [In] in H.
+  repeat (destruct H as [<-|H]; [eexists; split; [vm_compute; reflexivity|vm_compute; reflexivity]|]). contradiction.
+Qed.
+(* ... while a disabled rule comes back enabled (finding F5), and only that changes *)
+Example C15_example_rule_enabled_lost :
+  normalize (N:=NF) E0 (engine_val (ex_engine false)) = Ok (engine_val (ex_engine true)).
+Proof. vm_compute. reflexivity. Qed.
+(* an engine without an identifier name, or named like a library class under `from fuzzylite import *`, has no working
+   encapsulated export *)
+Example C15_example_encapsulated_names :
+  (exists m, encapsulate (N:=NF) E0 (alias_of "fl") (VObj "Engine" [("name", VStr ""); ("description", VStr ""); ("input_variables", VList []); ("output_variables", VList []); ("rule_blocks", VList [])]) = Ok m
+             /\ run_module E0 m = Err ESyntax) /\
+  (exists m, encapsulate (N:=NF) E0 (alias_of "*") (VObj "Engine" [("name", VStr "Engine"); ("description", VStr ""); ("input_variables", VList []); ("output_variables", VList []); ("rule_blocks", VList [])]) = Ok m
+             /\ run_module E0 m = Err EInternal).
+Proof. split; eexists; split; vm_compute; reflexivity. Qed.
